@@ -19,7 +19,7 @@ type writer struct {
 
 func newWriter(vx *Vaxis) *writer {
 	return &writer{
-		buf: bytes.NewBuffer(make([]byte, 8192)),
+		buf: bytes.NewBuffer(make([]byte, 0, 8192)),
 		w:   vx.console,
 		vx:  vx,
 	}
